@@ -3,7 +3,7 @@
 ENGINES = [
     {'name': 'vloop', 'path': 'vp/vloop.py', 'serves_properties': ['C03'], 'kind_free_text': 'virtual asyncio loop with explicit, classified ready-queue (order-preserving-delay scheduler seam)'},
     {'name': 'explore', 'path': 'vp/explore.py', 'serves_properties': ['C03', 'C06'], 'kind_free_text': 'deviation-bounded stateless schedule explorer (replay prefix on fresh objects, divergence = harness error)'},
-    {'name': 'enumerate', 'path': 'vp/props/*.py', 'serves_properties': ['C01', 'C02', 'C04', 'C14', 'C15', 'C18'], 'kind_free_text': 'bounded-exhaustive enumeration of inputs/histories against a Python reference model, executed on the real code'},
+    {'name': 'enumerate', 'path': 'vp/props/*.py', 'serves_properties': ['C01', 'C02', 'C04', 'C05', 'C14', 'C15', 'C18'], 'kind_free_text': 'bounded-exhaustive enumeration of inputs/histories against a Python reference model, executed on the real code'},
 ]
 
 NOTES = ('All checks drive the real bumble code imported from /repo\'s working tree; no model in another language. '
@@ -70,6 +70,14 @@ CLAIMS['C06'] = {
     'technique': 'exhaustive enumeration of link configurations x scripted connect/data/disconnect histories on 2-3 real device stacks, plus deviation-bounded exhaustive exploration of order-preserving link/HCI delivery delays',
     'text': '9 scripts (pair, reconnect, fan-out, fan-in, chain, a device that is central and peripheral at once with racing connects, an incoming connection while an outgoing one is pending) x initiator own-address {public, random} x advertiser own-address {public, random} x {legacy, extended (thorough: mixed)} advertising x {LE, BR/EDR} x controller iteration orders: connect() returns the requested peer in central role, the counterpart event fires on the owner of the address and nowhere else, both ends agree on addresses, handles distinct while live, every PDU on a test fixed channel arrives exactly once, in order, only at the peer end, disconnections reported on both ends only. Scanning: passive/active scanner x 1-2 advertisers x payload lengths: raw advertising reports carry the advertising data (and scan response data when active) byte for byte. Representative configurations re-run under all schedules with <=1 (quick) / <=2 (thorough) delivery deviations.',
     'note': 'n <= 3 devices, one advertising set per device; the scanner uses legacy scanning (the virtual controller has no extended-scan commands). One recorded finding: scan response reports carry advertising data.',
+}
+
+CLAIMS['C05'] = {
+    'level': 'exploration',
+    'engine': 'enumerate',
+    'technique': 'bounded-exhaustive enumeration of buffer geometries x PDU length sequences on two real device stacks with an independent ACL/ISO fragment decoder, plus explicit-state BFS to fixpoint over malformed fragment sequences on the real assembler',
+    'text': 'e2e: ACL length L in {5,8,23,27,251,1021} (thorough 12 values, full product on both sides) x buffer count {1,2,64} x transports {LE, classic, LE sharing the BR/EDR queue} x sequences of 1-3 PDUs (payload 0,1, kL-4+{-1,0,1}, 65531..65535) in each direction and duplex: every ACL packet at the host->controller boundary fits L with correct handle/pb/bc and concatenates to the L2CAP frames; the receiver gets every PDU once, in order, byte-identical. iso: SDU lengths at every fragment boundary +-1 x ISO packet lengths x buffer counts on CIS and BIS links incl. sequence-number wrap. assembler: BFS to fixpoint over 14-20 fragment symbols (starts, continuations, overflow, truncated starts, bad pb) on the bare assembler and on the host receive path with two connections; from every reachable state 5 well-formed final PDUs must be delivered intact.',
+    'note': 'Default schedule only. Payload contents follow one pattern. L=1 is out of scope (the L2CAP length cannot fit in the first fragment).',
 }
 
 NOT_CLAIMED = {}
